@@ -33,6 +33,6 @@ reg("C10",
                "FileSource over in-memory bundles (written by the real dbin writer) with the reference under seed-derived "
                "delays and outside Shutdowns, and evaluates the property's boolean form on the observation.",
     assumptions=["model follows filesource.go with repo_patches/C11_fix_*.diff applied (fixed C)",
-                 "bundle size > 0, thread count >= 0, blockIndexProvider = nil (no index), no gator",
+                 "bundle size > 0, thread count >= 0, no block index, or (12% of the cases) a provider whose index covers nothing, which the source drops on its first lookup and which must change nothing (finding C10-continuity-after-index-dropped); indexed delivery is C15; no gator",
                  "weak fairness for completeness: the schedule is continued by fair rounds"],
     )
